@@ -99,7 +99,8 @@ class KeysLoop:
         L = z3.If(k <= nin, 0, k - nin)
         return [('length', log.n == c.n0 + L),
                 ('old-items-kept', z3.Implies(z3.And(i >= 0, i < c.n0), z3.And(log.is_rec(i) == c.log0.is_rec(i), log.rec(i) == c.log0.rec(i), log.num(i) == c.log0.num(i), log.wid(i) == c.log0.wid(i)))),
-                ('record-j-is-the-gate-with-identifier-n_inputs+j', z3.Implies(z3.And(i >= 0, i < L), z3.And(log.is_rec(c.n0 + i), log.rec(c.n0 + i) == c.ids.key_at(nin + i))))]
+                # (stated over the absolute position i of the item, so that instances are found by matching rec(i) / is_rec(i) alone)
+                ('record-j-is-the-gate-with-identifier-n_inputs+j', z3.Implies(z3.And(i >= c.n0, i < c.n0 + L), z3.And(log.is_rec(i), log.rec(i) == c.ids.key_at(nin + i - c.n0))))]
 
     def inv(self, it, env, k):
         return self._f(it, env, k, it.ctx.fresh(I, 'ib1'))
@@ -133,7 +134,7 @@ class OutputsLoop:
         log = env['bit_writer']
         return [('length', log.n == self.n1 + k),
                 ('earlier-items-kept', z3.Implies(z3.And(i >= 0, i < self.n1), z3.And(log.is_rec(i) == l1.is_rec(i), log.rec(i) == l1.rec(i), log.num(i) == l1.num(i), log.wid(i) == l1.wid(i)))),
-                ('output-identifiers-in-order', z3.Implies(z3.And(i >= 0, i < k), z3.And(z3.Not(log.is_rec(self.n1 + i)), log.num(self.n1 + i) == c.ids.val(c.S0.out_elem(i)), log.wid(self.n1 + i) == c.w)))]
+                ('output-identifiers-in-order', z3.Implies(z3.And(i >= self.n1, i < self.n1 + k), z3.And(z3.Not(log.is_rec(i)), log.num(i) == c.ids.val(c.S0.out_elem(i - self.n1)), log.wid(i) == c.w)))]
 
     def inv(self, it, env, k):
         return self._f(it, env, k, it.ctx.fresh(I, 'ib2'))
@@ -232,10 +233,12 @@ class EncodeBody(CircuitContract):
         nrec = N - S0.in_n
         yield ('B1/length', log.n == n0 + nrec + S0.out_n)
         yield ('B1/old-stream-kept', z3.Implies(z3.And(i >= 0, i < n0), z3.And(log.is_rec(i) == log0.is_rec(i), log.rec(i) == log0.rec(i), log.num(i) == log0.num(i), log.wid(i) == log0.wid(i))))
-        yield ('B1/records-in-identifier-order', z3.Implies(z3.And(i >= 0, i < nrec), z3.And(log.is_rec(n0 + i), log.rec(n0 + i) == ids.key_at(S0.in_n + i),
-                                                                                              ids.val(log.rec(n0 + i)) == S0.in_n + i, S0.typ(log.rec(n0 + i)) != GT['INPUT'])))
-        yield ('B1/output-identifiers-in-order', z3.Implies(z3.And(i >= 0, i < S0.out_n), z3.And(z3.Not(log.is_rec(n0 + nrec + i)), log.num(n0 + nrec + i) == ids.val(S0.out_elem(i)),
-                                                                                                  log.wid(n0 + nrec + i) == w)))
+        inrec = z3.And(i >= n0, i < n0 + nrec)
+        k_ = S0.in_n + i - n0
+        yield ('B1/records-in-identifier-order', z3.Implies(inrec, z3.And(log.is_rec(i), log.rec(i) == ids.key_at(k_))))
+        yield ('B1/record-gates-have-those-identifiers-and-are-not-inputs', z3.Implies(inrec, z3.And(ids.val(ids.key_at(k_)) == k_, S0.typ(ids.key_at(k_)) != GT['INPUT'])))
+        yield ('B1/output-identifiers-in-order', z3.Implies(z3.And(i >= n0 + nrec, i < n0 + nrec + S0.out_n),
+                                                            z3.And(z3.Not(log.is_rec(i)), log.num(i) == ids.val(S0.out_elem(i - n0 - nrec)), log.wid(i) == w)))
         yield ('B3/circuit-untouched', z3.BoolVal(not [e for e in st['h'].events if e[0] in ('gate-write', 'gate-del', 'users-alias', 'users-del')]))
 
     def on_raise(self, it, ctx, exc, st):
@@ -557,12 +560,12 @@ def circuit_round_trip(pv):
              z3.ForAll([l], z3.Implies(d(l), z3.And(v(l) >= 0, v(l) < N, ka(v(l)) == l)))]           # consequence of E3 + E6 (own obligation below)
     key_of_val = hyps.pop()
     # the stream: what _encode_circuit_body + _encode_gate wrote is what _decode_circuit_body + _decode_gate read
-    g_ = ka(nin + j)
-    r_ = p0 + j
+    g_ = ka(nin + j - p0)                   # j: absolute position of the record in the stream
+    r_ = j
     ordered = z3.And(ri(r_, 0) == v(S0.op(g_, 0)), z3.Implies(S0.nops(g_) == 2, ri(r_, 1) == v(S0.op(g_, 1))))
     swapped = z3.And(order_free(S0.typ(g_)), S0.nops(g_) == 2, ri(r_, 0) == v(S0.op(g_, 1)), ri(r_, 1) == v(S0.op(g_, 0)))
-    hyps += [z3.ForAll([j], z3.Implies(z3.And(j >= 0, j < m), z3.And(ir(r_), rt(r_) == S0.typ(g_), z3.Or(ordered, swapped)))),
-             z3.ForAll([i], z3.Implies(z3.And(i >= 0, i < q), z3.And(z3.Not(ir(p0 + m + i)), nmf(p0 + m + i) == v(S0.out_elem(i)))))]
+    hyps += [z3.ForAll([j], z3.Implies(z3.And(j >= p0, j < p0 + m), z3.And(ir(r_), rt(r_) == S0.typ(g_), z3.Or(ordered, swapped))), patterns=[rt(j)]),
+             z3.ForAll([j], z3.Implies(z3.And(j >= p0 + m, j < p0 + m + q), z3.And(z3.Not(ir(j)), nmf(j) == v(S0.out_elem(j - p0 - m)))), patterns=[nmf(j)])]
     # decoded circuit: D1 / D2 with the counts the encoder wrote
     ns = SimpleNamespace(G=G, gidx=lambda q_: gidx(q_), nin=nin, p0=p0, rd0=rd0)
     for _, f in DecodeState(ns).clauses(S2, nin + m, l, i):
